@@ -294,7 +294,7 @@ fn plant_bad_share<C: Suite>(
 /// Round two: the share the receiver gets from the offender does not match the offender's commitment.
 /// With probability 40 % one to three FURTHER senders deliver a faulty share as well (same or another kind; an even and an odd
 /// number of faulty slots both occur): the statement about exactly one peer does not say who is named then, so only "part3
-/// refuses, names at least one offender and nobody else" is required.
+/// refuses and names nobody but offenders" is required.
 pub fn scenario_bad_round2_share<C: Suite>(rng: &mut TestRng, p: &Params, notes: &mut Notes) -> Verdict {
     let s = setup::<C>(rng, p, notes)?;
     let pick_kind = |rng: &mut TestRng| {
@@ -344,9 +344,9 @@ pub fn scenario_bad_round2_share<C: Suite>(rng: &mut TestRng, p: &Params, notes:
     )?;
     let named = e.culprits();
     check(
-        !named.is_empty() && named.iter().all(|c| offenders.contains(c)),
-        &format!("{} round-two shares not matching their commitments: Error::culprits() names an offending sender and never an honest participant", offenders.len()),
-        format!("a non-empty subset of {:?}", ids_hex::<C>(&offenders)),
+        named.iter().all(|c| offenders.contains(c)),
+        &format!("{} round-two shares not matching their commitments: Error::culprits() never names an honest participant", offenders.len()),
+        format!("a subset of {:?}", ids_hex::<C>(&offenders)),
         format!("{:?} (error {})", culprits_hex::<C>(&e), short_dbg(&e)),
     )
 }
